@@ -15,3 +15,23 @@ def c18_s1_single_rmw(am):
     calls = re.findall(r"self(?:\.0)?\.(\w+)\s*\(", body)
     ok = calls == ["fetch_max"]
     return ok, "AtomicReloadId::update must be exactly one atomic RMW (self.fetch_max); found calls on self: %s" % calls, "body: %s ; lines %s" % (" ".join(body.split()), rep["lines"])
+
+
+def _slice(am, file, begin, end):
+    lines = open(os.path.join(am, file)).read().split("\n")
+    hits = [i for i, l in enumerate(lines) if l.strip() == begin]
+    if not hits:
+        raise extract.LostAnchor("anchor not found: %r" % begin)
+    a = hits[0]
+    b = extract._match_brace(lines, a)
+    return "\n".join(lines[a:b + 1]), (a + 1, b + 1)
+
+
+def c08_k4_ptr_arm_answers(am):
+    """hot_reloading_thread: the Ptr arm runs update_if_local and then answers with the token it received."""
+    txt, rng = _slice(am, "src/hot_reloading/mod.rs", "Ok(CacheMessage::Ptr(ptr, reloader, token)) => {", None)
+    flat = " ".join(txt.split())
+    iu = flat.find("cache.update_if_local(")
+    ia = flat.find("answers.notify(token)")
+    ok = iu >= 0 and ia > iu and flat.count("answers.notify(") == 1 and "return" not in flat and "continue" not in flat and "break" not in flat
+    return ok, "the Ptr arm of hot_reloading_thread must call answers.notify(token) after cache.update_if_local(..) on every path; arm: %s" % flat, "lines %s-%s: %s" % (rng[0], rng[1], flat)
